@@ -355,8 +355,10 @@ def run(ctx):
                         'validated (1e-9 relative, in exact Q inside Coq against the exact rational solution), not proved',
                         'convergence of CG / multigrid is run-time behaviour (post-condition checked), not proved',
                         'pypardiso / scikit-sparse / cvxopt are absent: only their decision-table rows are covered',
-                        'matrix predicates: np.allclose(x, 0) is read as x = 0 (exact on the integer-valued matrices generated here); '
-                        'near-zero floating-point entries are outside the model']
+                        'matrix predicates: np.allclose(x, 0) is read as x = 0 on the integer-valued matrices (exact there: '
+                        'C05_integer_entries_exact_reading); the absolute tolerance 1e-8 is explicit in atoms_of_tol for every atom with a '
+                        'zero reference and compared in Coq on scaled matrices; the dense symmetric / Hermitian atoms (relative part of '
+                        'np.allclose) at small magnitude are covered by the oracle only; K06 (known) = misclassification of tiny matrices']
     ctx.trusted += ['Print Assumptions: all C05 theorems are closed under the global context (mathcomp ssreflect/algebra, no axioms)',
                     'tools/gen_C05.py (T-alg / T-dec translators, fail-closed) and the reading of numpy/scipy expressions it embodies '
                     '(@ = product, .T/.conj(), x[p] = P x, u[p] = x as P^T x for a permutation p, solve_triangular flags; the '
@@ -636,6 +638,9 @@ def run(ctx):
                 ctx.count('dia offsets order:' + ('main first' if len(As.offsets) and As.offsets[0] == 0 else 'main not first')
                           + (', one diagonal' if len(As.offsets) == 1 else ', several'))
 
+    # ---- magnitude: every class scaled by 1e-9 .. 1e9 (right-hand side alike); K06 = absolute tolerance of np.allclose
+    mag_checks, mag_labels = magnitude_block(ctx, pym)
+
     # ---- non-square matrices go to QR, in every container
     for shp in ((2, 3), (3, 2)):
         Ans = np.arange(6, dtype=float).reshape(shp)
@@ -677,6 +682,11 @@ def run(ctx):
     failing1, err1 = vlib.run_cases(ctx, 'classify', CLS_HEADER, cls_checks, chunk=250)
     failing2, err2 = vlib.run_cases(ctx, 'auto', CLS_HEADER, auto_checks, chunk=250)
     failing3, err3 = vlib.run_cases(ctx, 'err', ERR_HEADER, err_checks, chunk=500)
+    failing4, err4 = vlib.run_cases(ctx, 'magnitude', CLS_HEADER, mag_checks, chunk=250)
+    err3 = '\n'.join(e for e in (err3, err4) if e)
+    for idx in failing4[:20]:
+        ctx.violation('correspondence', 'matrix_checks', 'reported predicates == Model/MatrixChecks.v with the tolerance 1e-8 explicit', 'scaled matrix',
+                      mag_labels[idx], note='Coq model: ' + mag_checks[idx][:600])
     tm['coq: classify+auto+err'] = round(time.time() - t_, 1)
     allerr = '\n'.join(e for e in (err, err1, err2, err3) if e)
     ctx.obligation('correspondence:case files evaluated', 'correspondence', not allerr, allerr)
@@ -719,6 +729,104 @@ def run(ctx):
     cg_sweep(ctx, pym)
     tm['python: cg sweep'] = round(time.time() - t_, 1)
     ctx.extra['seconds'] = tm
+
+
+K06 = ('auto_determine_solver', 'op_trans(A) x = b for the solver returned for a non-singular matrix',
+       'all off-diagonal (or all unsymmetric) parts below the absolute tolerance 1e-8 of np.allclose (matrix of tiny magnitude)')
+SCALES = [1e-9, 1e-6, 1.0, 1e6, 1e9]
+TOLQ = vlib.qlit(Fraction(1e-8))       # the double 1e-8 (default atol of np.allclose), exactly
+
+
+def magnitude_block(ctx, pym):
+    """every matrix class x scale 1e-9 .. 1e9 x dense + sparse containers, through auto_determine_solver and the explicit
+    solvers (oracle: residual relative to |b| at every scale; predicates report no property the matrix lacks), and the
+    predicates against the model with the tolerance of np.allclose explicit (in Coq).  Returns (checks, labels)."""
+    from pymoto.solvers import auto_determine_solver, matrix_is_diagonal, matrix_is_symmetric, matrix_is_hermitian
+    rng = ctx.rng
+    checks, labels = [], []
+    mixed = np.array([[30., 5, 0], [20, 40, 5], [0, 5, 50]])     # at 1e-9: entries 5e-9 below, 2e-8 above the tolerance
+    base = [('diag', lc.gen_matrix(rng, 'diag', 3, False)), ('spd', lc.gen_matrix(rng, 'spd', 4, False)),
+            ('indef', lc.gen_matrix(rng, 'indef', 3, False)), ('zerodiag', lc.gen_matrix(rng, 'zerodiag', 4, False)),
+            ('general', lc.gen_matrix(rng, 'general', 3, False)), ('lower', lc.gen_matrix(rng, 'lower', 3, False)),
+            ('general', mixed), ('general', np.array([[4., 1, 0], [2, 5, 2], [0, 3, 6]])),      # the K06 witness
+            ('diag', lc.gen_matrix(rng, 'diag', 3, True)), ('hpd', lc.gen_matrix(rng, 'hpd', 3, True)),
+            ('hindef', lc.gen_matrix(rng, 'hindef', 4, True)), ('csym', lc.gen_matrix(rng, 'csym', 3, True)),
+            ('general', lc.gen_matrix(rng, 'general', 4, True))]
+    for bi, (cls, A0) in enumerate(base):
+        n = A0.shape[0]
+        cplx = bool(np.iscomplexobj(A0))
+        fl = lc.classify(A0)
+        b0 = lc.gen_rhs(rng, n, 'vec' if bi % 2 else 'blk', cplx)
+        for scale in SCALES:
+            A = A0 * scale
+            b = b0 * scale
+            # K06's input class, from the values: a property the matrix lacks is within np.allclose's tolerance
+            off = A - np.diag(np.diag(A))
+            in_k06 = bool((not fl['diag'] and np.allclose(off, 0)) or (not fl['sym'] and np.allclose(A, A.T))
+                          or (cplx and not fl['herm'] and np.allclose(A, A.conj().T)))
+            ctx.count(f'magnitude:scale {scale:g}' + (' (K06 class)' if in_k06 else ''))
+            # a quantity the predicates compare that sits ON the tolerance (e.g. 2 * 5e-9): the outcome depends on the
+            # rounding of the floating-point difference / modulus -> not compared with the exact model
+            qs = np.abs(np.concatenate([off.ravel(), (A - A.T).ravel(), (A - A.conj().T).ravel()]))
+            boundary = bool(np.any(np.abs(qs - 1e-8) <= 1e-8 * 1e-6))
+            for spec in ('dense', 'csc', 'coo', 'dia', 'lil'):
+                As = storage(A, spec)
+                sparse = spec != 'dense'
+                lab = dict(A0=A0.tolist().__repr__(), scale=scale, storage=spec, cls=cls)
+                ctx.search_evaluations += 1
+                try:
+                    obs = [bool(matrix_is_diagonal(As)), bool(matrix_is_symmetric(As)), bool(matrix_is_hermitian(As))]
+                except Exception as e:
+                    ctx.violation('impl-violates', 'matrix_checks', 'the predicates evaluate on every container', f'{cls} matrix', dict(lab, error=repr(e)))
+                    continue
+                # in Coq: the predicates with the tolerance explicit, on the exact values of the floats
+                S = coq_storage(spec, As)
+                Alit = lc.coq_cmat(cq_matrix(A))
+                if sparse:
+                    chk = f'list_all2 Bool.eqb (mc_flags_tol {TOLQ} {S} {vlib.blit(cplx)} {Alit}) [' + '; '.join(vlib.blit(v) for v in obs) + ']'
+                else:
+                    chk = f'Bool.eqb (matrix_is_diagonal (atoms_of_tol {TOLQ} {S} {vlib.blit(cplx)} {Alit})) {vlib.blit(obs[0])}'
+                if boundary:
+                    ctx.count('magnitude:a compared quantity lies on the tolerance (not compared with the model)')
+                else:
+                    checks.append(chk)
+                    labels.append(dict(lab, observed=obs))
+                    ctx.case(('magnitude', bi, scale, spec), True, sample=dict(case=f'magnitude {cls} x {scale:g} {spec}', coq=chk[:300]))
+                # oracle: no property the matrix lacks
+                lacking = [nm for nm, o, tr_ in (('diagonal', obs[0], fl['diag']), ('symmetric', obs[1], fl['sym']),
+                                                 ('hermitian', obs[2], fl['herm'] if cplx else fl['sym'])) if o and not tr_]
+                if lacking:
+                    if in_k06:
+                        ctx.violation('impl-violates', K06[0], K06[1], K06[2], dict(lab, reported=lacking))
+                    else:
+                        ctx.violation('impl-violates', 'matrix_checks', 'a predicate reports only properties the matrix has', f'{cls} matrix',
+                                      dict(lab, reported=lacking))
+                # solve through auto_determine_solver and the explicit solvers
+                for slabel, ctor in solver_menu(pym, cls, cplx, sparse):
+                    uses_predicates = slabel.startswith(('auto', 'SolverDenseLDL', 'SolverDenseCholesky'))
+                    for t in 'NTH':
+                        ctx.search_evaluations += 1
+                        ctx.count('magnitude:' + slabel)
+                        replay = dict(lab, solver=slabel, trans=t, b0=b0.tolist().__repr__())
+                        try:
+                            with np.errstate(all='ignore'):
+                                solver = auto_determine_solver(As) if ctor is None else ctor()
+                                solver.update(As)
+                                x = solver.solve(b.copy(), trans=t)
+                            res = np.linalg.norm((opmat(A, t) @ x.reshape(n, -1) - b.reshape(n, -1)), axis=0) / np.linalg.norm(b.reshape(n, -1), axis=0)
+                            ok = x.shape == b.shape and bool(np.all(np.isfinite(x))) and bool(np.all(res <= 1e-8))
+                            got = dict(returned=type(solver).__name__, residual=res.tolist())
+                        except Exception as e:
+                            ok, got = False, dict(error=repr(e))
+                        if ok:
+                            continue
+                        if in_k06 and uses_predicates:
+                            ctx.violation('impl-violates', K06[0], K06[1], K06[2], replay, got=got)
+                        else:
+                            ctx.violation('impl-violates', slabel.split('(')[0] + ('' if ctor is None else '.solve'),
+                                          'op_trans(A) x = b relative to |b| at every magnitude', f'{cls} matrix', replay, got=got)
+    ctx.extra['magnitude_cases'] = len(checks)
+    return checks, labels
 
 
 def load_corpus():
@@ -833,7 +941,8 @@ def cg_sweep(ctx, pym):
                     # F31 (fixed): x kept the dtype of the guess, `x += p @ alpha` could not cast
                     ctx.violation('impl-violates', 'CG.solve', 'solve accepts an initial guess of narrower dtype than the solution',
                                   'x0 real/integer, system complex/float', dict(replay, error=repr(e)))
-                elif type(A).__name__.startswith('dok') and x0 is None and isinstance(e, (IndexError, ValueError)):
+                elif type(A).__name__.startswith('dok') and x0 is None and isinstance(e, (IndexError, ValueError)) \
+                        and not isinstance(e, np.linalg.LinAlgError):
                     # F29 (fixed): np.result_type received the DOK container itself
                     ctx.violation('impl-violates', 'CG.solve', 'solve returns for a Hermitian positive definite matrix in DOK storage without initial guess',
                                   'DOK container, x0=None', dict(replay, error=repr(e)))
